@@ -184,7 +184,11 @@ def run(ctx, rep):
                 if sj not in dom.get(mb, set()):
                     ok_edges, why = False, "the new handle is constructed on a path that does not pass the overflow guard"
             if not make_bbs:
-                ok_edges, why = False, "no handle construction found after the increment (anchor lost)"
+                # the guarded increment lives in a helper of its own (`fn acquire_ref(&self)`): the tripped edge cannot return
+                # (checked above), so every caller that goes on to build the handle has passed the guard; the clone entry points
+                # reaching this increment exactly once is R-FUNNEL
+                if balance.is_api(F, b):
+                    ok_edges, why = False, "no handle construction found after the increment (anchor lost)"
             if ok_edges:
                 rep.ok("R-OVFGUARD", key + "/edges", cfg=tag)
                 rep.sample({"rule": "R-OVFGUARD", "config": tag, "function": key, "guard": "old %s %d" % (op, k), "abort_edge_exits": "diverge only", "at": F.loc(b, tt["span"])})
